@@ -3313,12 +3313,13 @@ impl Zeroconf {
                     }
                 }
 
+                // Find the service by its current (possibly renamed) full name. Name changes
+                // are recorded under the registered spelling, not the lower-cased key.
                 let query_name = q_name.to_lowercase();
                 let service_opt = self
                     .my_services
-                    .iter()
-                    .find(|(k, _v)| dns_registry.resolve_name(k.as_str()) == query_name)
-                    .map(|(_, v)| v);
+                    .values()
+                    .find(|v| dns_registry.resolve_name(v.get_fullname()).to_lowercase() == query_name);
 
                 let Some(service) = service_opt else {
                     continue;
@@ -3341,11 +3342,12 @@ impl Zeroconf {
                     continue;
                 }
 
-                add_answer_of_service(
+                add_answer_of_service_as(
                     &mut out,
                     &msg,
                     question.entry_name(),
                     service,
+                    dns_registry.resolve_name(service.get_hostname()),
                     qtype,
                     intf_addrs,
                 );
@@ -4021,11 +4023,27 @@ impl Zeroconf {
 }
 
 /// Adds one or more answers of a service for incoming msg and RR entry name.
+#[cfg_attr(not(test), allow(dead_code))]
 fn add_answer_of_service(
     out: &mut DnsOutgoing,
     msg: &DnsIncoming,
     entry_name: &str,
     service: &ServiceInfo,
+    qtype: RRType,
+    intf_addrs: Vec<IpAddr>,
+) {
+    let hostname = service.get_hostname();
+    add_answer_of_service_as(out, msg, entry_name, service, hostname, qtype, intf_addrs)
+}
+
+/// Same as [add_answer_of_service], with the host name the service currently holds
+/// (it differs from the registered one after a conflict rename).
+fn add_answer_of_service_as(
+    out: &mut DnsOutgoing,
+    msg: &DnsIncoming,
+    entry_name: &str,
+    service: &ServiceInfo,
+    hostname: &str,
     qtype: RRType,
     intf_addrs: Vec<IpAddr>,
 ) {
@@ -4040,7 +4058,7 @@ fn add_answer_of_service(
                 service.get_priority(),
                 service.get_weight(),
                 service.get_port(),
-                service.get_hostname().to_string(),
+                hostname.to_string(),
             ),
         );
     }
@@ -4061,7 +4079,7 @@ fn add_answer_of_service(
     if qtype == RRType::SRV && srv_added {
         for address in intf_addrs {
             out.add_additional_answer(DnsAddress::new(
-                service.get_hostname(),
+                hostname,
                 ip_address_rr_type(&address),
                 CLASS_IN | CLASS_CACHE_FLUSH,
                 service.get_host_ttl(),
